@@ -236,6 +236,13 @@ firstpass_start_element_handler (GMarkupParseContext *context,
 
   if (strcmp (element_name, "alias") == 0)
     {
+      const gchar *introspectable;
+
+      /* An alias the scanner could not resolve has no target to read */
+      introspectable = find_attribute ("introspectable", attribute_names, attribute_values);
+      if (introspectable && atoi (introspectable) == 0)
+        return;
+
       start_alias (context, element_name, attribute_names, attribute_values,
 		   ctx, error);
     }
@@ -278,7 +285,7 @@ firstpass_end_element_handler (GMarkupParseContext *context,
 			       GError             **error)
 {
   ParseContext *ctx = user_data;
-  if (strcmp (element_name, "alias") == 0)
+  if (strcmp (element_name, "alias") == 0 && ctx->state == STATE_ALIAS)
     {
       state_switch (ctx, STATE_NAMESPACE);
       g_free (ctx->current_alias);
